@@ -114,3 +114,17 @@ prop(
              "representative arity: argument lists are the empty one and (2 positional + 1 keyword); the code forwards them untouched"],
     design_ref="5/C10",
 )
+
+prop(
+    "C14",
+    ["contracts.c14_config"],
+    "proof",
+    "contract-based deductive verification: trace contract on load_configuration with a counting fold (position of each digest call = number of present plugins before it), loop invariant over the plugin sequence",
+    "load_configuration: validation before any plugin runs, exactly-once / in-order / exact-content digestion are proved for every plugin sequence and every configuration mapping; load_section_plugins' ordering under before/after constraints (incl. constraints naming absent plugins) is covered by a BOUNDED stand-in, reported separately",
+    "trusted: pyvc's Python semantics; digests are arbitrary callables; logging.config for the logging section; toposort_flatten / entrypoints behind the bounded stand-in",
+    trusted=["hypothesis: plugins are pairwise distinct objects; a digest is an arbitrary callable (any result, any exception propagates)",
+             "BOUNDED (not proved): load_section_plugins orders plugins by their before/after constraints and ignores constraints naming absent plugins - exhaustive native enumeration of small plugin sets, see coverage.bounded"],
+    design_ref="5/C14",
+    lemmas=True,
+    bounded="bounded.c14_sections",
+)
